@@ -4,6 +4,7 @@ package main
 import (
 	"fmt"
 	"os"
+	"runtime/pprof"
 	"strconv"
 
 	"github.com/frobnitzem/go-p9p/zzverif/core"
@@ -44,6 +45,13 @@ func main() {
 	if w := os.Getenv("VERIF_WORKERS"); w != "" {
 		c.Workers, _ = strconv.Atoi(w)
 	}
+	if pf := os.Getenv("VERIF_PROFILE"); pf != "" {
+		fh, _ := os.Create(pf)
+		pprof.StartCPUProfile(fh)
+		defer pprof.StopCPUProfile()
+	}
 	f(c)
-	os.Exit(c.Finish())
+	rc := c.Finish()
+	pprof.StopCPUProfile()
+	os.Exit(rc)
 }
